@@ -537,6 +537,10 @@ _BODY_FIELDS = ('body', 'orelse', 'finalbody')
 VIRT_FIELDS = {ast.arguments: '_all', ast.Call: '_args', ast.ClassDef: '_bases', ast.Dict: '_all', ast.MatchMapping: '_all',
                ast.MatchClass: '_attrs', ast.Compare: '_all'}
 
+VIRT_CODES = {ast.arguments: ['x', 'x=g(1)', 'x, y=g(1)', 'x: int = 1', '*, x=g(1)'], ast.Call: ['p(1)', 'k=v(1)', 'p, *q, k=v(1)'],
+              ast.ClassDef: ['P[1]', 'k=v(1)', 'P, k=v(1)'], ast.Dict: ['p: f(z), **q', '**f(z)'],
+              ast.MatchMapping: ['8: p, 9: [q]'], ast.MatchClass: ['p, k=[q]', '[p]', 'k=[q]'], ast.Compare: ['p < q(1)', 'q(1)']}
+
 # deterministic product: every marker shape of a signature and every other virtual field
 VIRT_SHAPES = [
     ('def f(a, b, /, c, d=1, *, e, f=2, g=3, **k): pass', [['body', 0], ['args', None]]),
@@ -572,6 +576,10 @@ def virt_product():
         pre = [[list(map(list, p)), q] for p, _ in enum_nodes(root.a) for q in QNAMES]
         for i in range(n + 1):
             for j in range(i, n + 1):
+                for code in VIRT_CODES[a.__class__]:       # put new elements (with children of their own) over the span
+                    for how in ('put', 'viewput') if j - i <= 2 else ('put',):
+                        out.append((src, [{'pre': pre, 'op': {'op': 'virt', 'path': path, 'field': fld, 'start': i,
+                                                               'stop': j, 'how': how, 'code': code, 'norm': True}}]))
                 if i == j:
                     continue
                 for how in ('cut', 'del', 'copy', 'viewcut', 'viewdel'):
@@ -617,15 +625,15 @@ def gen_op(rng, root, src_gaps=None, kept=None):
         if kind == 'kview_act' and alive:
             name = rng.choice(alive)
             rec = kept[name]
-            act = rng.choice(['cut', 'remove', 'delall', 'append', 'prepend', 'insert1', 'extend', 'del0'])
+            act = rng.choice(['cut', 'remove', 'delall', 'append', 'prepend', 'insert1', 'extend', 'del0', 'setslice0'])
             base_a = rec['view'].base.a
             what = 'stmt' if rec['field'] in _BODY_FIELDS else 'expr'
             if rec['field'] == 'keywords':
-                code = 'k1=1, k2=2' if act == 'extend' else 'kk=1'
+                code = 'k1=1, k2=2' if act in ('extend', 'setslice0') else 'kk=1'
             elif what == 'stmt':
-                code = 'p\nq' if act == 'extend' else 'pass'
+                code = 'p\nq' if act in ('extend', 'setslice0') else 'pass'
             else:
-                code = 'p, q' if act == 'extend' else 'zz'
+                code = 'p, q' if act in ('extend', 'setslice0') else 'zz'
             return {'op': 'kview', 'act': act, 'name': name, 'code': code}
         if len(alive) >= 3:
             return None
@@ -667,8 +675,13 @@ def gen_op(rng, root, src_gaps=None, kept=None):
         j = rng.randint(i, n)
         if i == j and n:
             j = min(n, i + 1)
-        return {'op': 'virt', 'path': list(map(list, p)), 'field': fld, 'start': i, 'stop': j,
-                'how': rng.choice(['cut', 'cut', 'del', 'copy', 'viewcut', 'viewdel'])}
+        how = rng.choice(['cut', 'cut', 'del', 'copy', 'viewcut', 'viewdel', 'put', 'put', 'viewput'])
+        d = {'op': 'virt', 'path': list(map(list, p)), 'field': fld, 'start': i, 'stop': j, 'how': how}
+        if how in ('put', 'viewput'):
+            if rng.random() < 0.4:
+                d['stop'] = i
+            d['code'] = rng.choice(VIRT_CODES[a.__class__])
+        return d
     if kind == 'line_comment':
         stmts = [(p, a) for p, a in nodes if p and isinstance(a, (ast.stmt, ast.ExceptHandler, ast.match_case))]
         if not stmts:
@@ -944,6 +957,10 @@ def apply_op(root, op, kept=None):
                 getattr(f, fld)[st:sp].cut()
             elif how == 'viewdel':
                 del getattr(f, fld)[st:sp]
+            elif how == 'put':
+                f.put_slice(op['code'], st, sp, fld)
+            elif how == 'viewput':
+                getattr(f, fld)[st:sp] = op['code']
             elif how == 'viewcopy':
                 getattr(f, fld)[st:sp].copy()
             else:
@@ -1101,6 +1118,8 @@ def apply_kview(root, op, kept):
             v.extend(code)
         elif act == 'del0':
             del v[0]
+        elif act == 'setslice0':
+            v[0:0] = code
         else:
             raise ValueError(act)
     n1 = _vlen(v.base, fld)
@@ -1111,7 +1130,7 @@ def apply_kview(root, op, kept):
             ok, e1 = d == -w, s0
         elif act in ('append', 'prepend', 'insert1'):
             ok, e1 = d == 1, e0 + 1
-        elif act == 'extend':
+        elif act in ('extend', 'setslice0'):
             ok, e1 = d >= 0, e0 + d
         else:
             ok, e1 = d == -1 and w > 0, e0 - 1
@@ -1202,8 +1221,8 @@ KVIEW_FIELDS = [
     ('x = {a: 1, b: 2, c: 3}', [['body', 0], ['value', None]], '_all', 'zz: 1', 'p: 1, q: 2'),
     ('match x:\n case [a, b, c]: pass', [['body', 0], ['cases', 0], ['pattern', None]], 'patterns', 'zz', 'p, q'),
 ]
-KVIEW_KINDS = [(None, None), (0, 2), (1, None), (1, 3), (1, 1)]
-KVIEW_ACTS = ['cut', 'remove', 'delall', 'append', 'prepend', 'insert1', 'extend', 'del0', None]
+KVIEW_KINDS = [(None, None), (0, 2), (1, None), (1, 3), (1, 1), (0, 0)]
+KVIEW_ACTS = ['cut', 'remove', 'delall', 'append', 'prepend', 'insert1', 'extend', 'del0', 'setslice0', None]
 KVIEW_EXT = ['append', 'prepend', 'del0', 'newview_append', 'extend']
 
 
@@ -1218,7 +1237,7 @@ def kview_product():
                                                 'start': st, 'stop': sp}}]
                     if act:
                         steps.append({'pre': [], 'op': {'op': 'kview', 'act': act, 'name': 'v',
-                                                        'code': many if act == 'extend' else one}})
+                                                        'code': many if act in ('extend', 'setslice0') else one}})
                     steps.append({'pre': [], 'op': {'op': 'ext', 'how': ext, 'path': path, 'field': fld,
                                                     'code': many if ext == 'extend' else one}})
                     steps.append({'pre': [], 'op': {'op': 'ext', 'how': 'append', 'path': path, 'field': fld, 'code': one}})
